@@ -1,6 +1,7 @@
 package main
 
 import (
+	"runtime/debug"
 	"encoding/json"
 	"flag"
 	"fmt"
@@ -281,6 +282,16 @@ func cmdCheck(args []string) {
 			tasks = append(tasks, task{"lemma:" + l.Name, func() []*Exec { return v.verifyLemma(l) }})
 		}
 	}
+	if only := os.Getenv("GOVC_ONLY"); only != "" {
+		// debugging aid: restrict the run to tasks whose name contains the substring (never used by registered commands)
+		var keep []task
+		for _, t := range tasks {
+			if strings.Contains(t.name, only) {
+				keep = append(keep, t)
+			}
+		}
+		tasks = keep
+	}
 	// generate in parallel
 	var execs []*Exec
 	var mu sync.Mutex
@@ -298,6 +309,9 @@ func cmdCheck(args []string) {
 				if r := recover(); r != nil {
 					mu.Lock()
 					x := newExec(v, "", t.name, "")
+					if os.Getenv("GOVC_DEBUG") != "" {
+						fmt.Fprintf(os.Stderr, "PANIC %s: %v\n%s\n", t.name, r, debug.Stack())
+					}
 					x.bindingError("generator", fmt.Sprintf("internal error while generating VCs for %s: %v", t.name, r), "", 0)
 					execs = append(execs, x)
 					mu.Unlock()
